@@ -129,4 +129,20 @@ int w_vbk_decode(void* rs, const uint8_t* hashes, int use_precalc, uint8_t* outb
   return ok;
 }
 void h_vbk_decode() { check_layout(); w_vbk_decode(nondet_ptr(), (const uint8_t*)nondet_ptr(), (int)nondet_unsigned(), (uint8_t*)nondet_ptr(), nondet_size_t()); REACH; }
+
+// ---------------------------------------------------------------- KeystoneContainer
+// a, b: two containers as [n1][4 bytes][n2][4 bytes] (lengths <= 4); returns a == b; *enc = bytes written by a.toVbkEncoding()
+int w_ksc(const uint8_t* a, const uint8_t* b, size_t* enc) {
+  KeystoneContainer x, y;
+  x.firstPreviousKeystone = std::vector<uint8_t>(a + 1, a + 1 + a[0]);
+  x.secondPreviousKeystone = std::vector<uint8_t>(a + 6, a + 6 + a[5]);
+  y.firstPreviousKeystone = std::vector<uint8_t>(b + 1, b + 1 + b[0]);
+  y.secondPreviousKeystone = std::vector<uint8_t>(b + 6, b + 6 + b[5]);
+  WriteStream w;
+  x.toVbkEncoding(w);
+  *enc = w.data().size();
+  __CPROVER_assert(x.estimateSize() == w.data().size(), "estimateSize() == bytes written by toVbkEncoding()");
+  return x == y;
+}
+void h_ksc() { w_ksc((const uint8_t*)nondet_ptr(), (const uint8_t*)nondet_ptr(), (size_t*)nondet_ptr()); REACH; }
 }
